@@ -180,6 +180,10 @@ class PollScript(object):
             if e == "yield":
                 for d in descriptors:
                     d.yield_result(("polled", d.result))
+            elif e == "yield1":
+                # resolve only the first (oldest registered) descriptor of this call
+                for d in descriptors[:1]:
+                    d.yield_result(("polled", d.result))
             elif e == "err":
                 for d in descriptors:
                     exc = EXC["E1"]("pollerr#%d" % i)
